@@ -36,16 +36,16 @@ E1_NOTE = 'One node (Memory broker/presence), 1-2 connections, 2-3 concurrent op
 def e1(i, what, text):
     claim(i, 'E1', 'stateless DFS over thread interleavings of the real Node/Client/Hub code under a controlled scheduler (preemption + timer-first + environment-answer deviations bounded, HB-state caching): ' + what, text, E1_NOTE)
 e1('C04', 'client/server subscribe, unsubscribe, disconnect with sync/async callbacks and the 5 s wait gate', 'Every interleaving up to the bound of the listed operation threads on one connection; after settling a marker publication must reach the connection iff it reports itself subscribed, and the hub must hold exactly one generation-matched routing entry iff subscribed.')
-e1('C05', 'close (Disconnect / Node.Disconnect / transport close / write error / slow consumer / stale timer) placed at every point of connect with server-side subscriptions, subscribe, map subscribe (state, stream, live, ephemeral), shared-poll subscribe and track, presence tick', 'Every close point within the bound; after settling the node must hold no hub, routing, presence or client-state entry of the closed connection and the connection/subscription gauges must be back to their earlier values.')
-e1('C06', 'presence ticks against subscribe/unsubscribe/close, one channel (connops) and three presence channels of one connection with two of them ending during one tick (presencemulti, delay bound 2-3)', 'Every interleaving within the bound; at quiescence the channel presence contains the connection iff it holds a subscription with presence, and presence stats count distinct clients/users.')
+e1('C05', 'close (Disconnect / Node.Disconnect / transport close / write error / slow consumer / stale timer) placed at every point of connect with server-side subscriptions, subscribe, map subscribe (state, stream, live, ephemeral), shared-poll subscribe and track, presence tick; harness subfail: a subscription attempt (client command, connect-time, Node.Subscribe) whose backend calls (broker History / Subscribe / PublishJoin, presence AddPresence incl. stored-but-acknowledgement-lost) fail, one (quick) or two (thorough) per attempt', 'Every close point within the bound; after settling the node must hold no hub, routing, presence or client-state entry of the closed connection and the connection/subscription gauges must be back to their earlier values.')
+e1('C06', 'presence ticks against subscribe/unsubscribe/close, one channel (connops) and three presence channels of one connection with two of them ending during one tick (presencemulti, delay bound 2-3); harness subfail: every single / pair of failing backend answers during one subscription attempt, incl. requests refused after the presence add (reject-unrecovered)', 'Every interleaving within the bound; at quiescence the channel presence contains the connection iff it holds a subscription with presence, and presence stats count distinct clients/users.')
 e1('C07', 'subscribe completion against unsubscribe/disconnect, observed by a second subscriber', 'Every interleaving within the bound; the observer\'s join/leave pushes for the actor must alternate starting with join, end consistently with the final subscription state, and match the number of established/ended subscriptions.')
 e1('C08', 'connect, alive ticks, unsubscribe, server disconnect, transport close', 'Every interleaving within the bound; the callback log must show disconnect at most once and after connect, no alive after disconnect and one unsubscribe callback per established subscription that ended. Node shutdown: a connect racing Shutdown (delay-bounded schedule exploration under two default thread orders, oldest-first and newest-first) and connection attempts after Shutdown through the generic API, the SSE handler and the HTTP-stream handler must never end up connected (WebSocket upgrade path not driven).')
-e1('C10', 'publications / joins of other connections against subscribe and unsubscribe (client and server side, positioned and not)', 'Every interleaving within the bound; on the connection\'s frame log no publication/join/leave for the channel may appear outside a subscription bracket. Harness bracketbatch adds per-channel batching (MaxSize / MaxDelay / both / FlushLatestPublication / none) x ReplyWithoutQueue x positioned on the client and server paths with the virtual clock driving the batch timers.')
+e1('C10', 'publications / joins of other connections against subscribe and unsubscribe (client and server side, positioned and not)', 'Every interleaving within the bound; on the connection\'s frame log no publication/join/leave for the channel may appear outside a subscription bracket. Harness bracketbatch adds per-channel batching (MaxSize / MaxDelay / both / FlushLatestPublication / none) x ReplyWithoutQueue x positioned on the client and server paths with the virtual clock driving the batch timers, and an unsubscribe command that arrives while the subscribe is still in flight (asynchronous callback).')
 claim('C02', 'E2+E1', 'exhaustive enumeration of channel histories (publish/remove/TTL/meta-TTL over a virtual clock, depth-bounded) x subscribe probes on the real Node against a reference log; stateless DFS (preemption bound 1-2) over concurrent recoveries and publications with and without UseSingleFlight',
       'Every history up to the stated depth is built on a real node under the virtual clock and probed with every (offset, epoch, limit, filter, reject flag) combination; recovered=true must mean the exact admitted suffix, recovered=false no publications. Harness recoverrace: two recovering subscribers (same / different positions and epochs) and a publisher interleaved within the bound, each reply must be exact or refused.',
       'One channel, Memory broker, histories of depth <= 4-5, HistorySize 1-3.')
-claim('C03', 'E2', 'exhaustive enumeration of channel histories x cache-recovery probes (client and server-forced, cache-empty handler variants, delta) on the real Node against a reference log',
-      'Every history up to the stated depth x every probe; at most one publication (unless delta), it is the newest both filters admit, recovered exactly when the newest publication is in history or the client holds the position.',
+claim('C03', 'E2+E1', 'exhaustive enumeration of channel histories x cache-recovery probes (client and server-forced, cache-empty handler variants, delta) on the real Node against a reference log; stateless DFS (preemption bound 1-2) over a cache-recovery subscribe overlapping a Node.History read under UseSingleFlight',
+      'Every history up to the stated depth x every probe; at most one publication (unless delta), it is the newest both filters admit, recovered exactly when the newest publication is in history or the client holds the position. Overlap variant (cacheflight): history limit {-1,1,2} x forward/reverse x client recover / AutoCacheRecover x no / client / server filter; the subscribe reply and the history result must equal what the same calls return alone.',
       'One channel, Memory broker, depth <= 4-5.')
 claim('C43', 'E2+E1', 'exhaustive enumeration of histories x history-command parameters and of presence membership configurations on the real client command handlers; stateless DFS (preemption bound 1-2) over a Node.History and a client history command overlapping under UseSingleFlight',
       'Every history (depth <= 3-4) x since x limit x reverse x HistoryMaxPublicationLimit; replies must respect the limit, equal Node.History for the effective filter, reject reverse with since offset 0; presence/presence_stats replies equal the node-level results for all 125 membership configurations. Overlap variant: limits {-1,0,1,2}^2 x HistoryMaxPublicationLimit {0,2}; each of two overlapping reads must return what it returns alone.',
@@ -88,8 +88,8 @@ claim('C32', 'E2+E1', 'exhaustive enumeration of JSON payload texts (length <= 4
       'Handlers run under the scheduler with a harness ResponseWriter; net/http itself is not in the loop.')
 
 claim('C13', 'E1+E2', 'exhaustive operation sequences and stateless DFS over producer / timer / delWriter / Close interleavings of the real per-channel batch writer with a recording flush function',
-      'Every event sequence up to depth 5-6 over six batch configurations, and every interleaving up to deviation bound 2-3 of two producers with an end event (timer-first deviations included); flushed items keep production order per channel, latest mode coalesces per key, nothing buffered is flushed after delWriter/Close(false) returned.',
-      'Component level (perChannelWriter without a Client); the client-level window is covered through the channelWriter closed flag only.')
+      'Every event sequence up to depth 5-6 over six batch configurations, and every interleaving up to deviation bound 2-3 of two producers with an end event (timer-first deviations included); flushed items keep production order per channel, latest mode coalesces per key, nothing buffered is flushed after delWriter/Close(false) returned. Connection level (harness batchend): subscribe (synchronous / asynchronous callback) followed at once by unsubscribe on a batched channel with pushed join/leave while two publications arrive; the own join of the connection, buffered by the subscribe, is never written after the unsubscribe reply.',
+      'Component level (perChannelWriter without a Client) plus one connection-level harness for the end-of-subscription clause.')
 claim('C14', 'E2+E1', 'exhaustive enumeration of payload/tag sequences x subscribe/recover scripts on a real node with a fossil-delta client model (JSON and Protobuf, stream, cache, medium, map subscriptions), plus scheduler exploration of concurrent publishers',
       'Every payload sequence up to length 3-4 over a payload alphabet with both patch-smaller and patch-larger cases, for fresh / recovering / paged connections on 7 stream channel kinds and 3 map channel kinds; every delivered delta must reconstruct the published payload and no delta may arrive without the right base.',
       'Memory brokers; shared-poll keyed channels are covered by C25 only.')
@@ -109,13 +109,13 @@ claim('C25', 'E1', 'stateless DFS over interleavings of SharedPollPublish, refre
 
 e1('C26', 'first subscribe / last unsubscribe / disconnect of two connections on one channel, delayed broker-unsubscribe jobs of the dissolver on the virtual clock, broker Subscribe/Unsubscribe failures as environment choices', 'Every interleaving within the bound; whenever a subscribe acknowledgement is written the broker is subscribed to the channel, publications to acknowledged subscribers arrive, and at quiescence the broker-subscribed set equals the channels with local subscribers.')
 e1('C37', 'concurrent subscribe attempts of every kind (client command with async callbacks, map subscribe, Client.Subscribe, Node.Subscribe) against ClientChannelLimit 1-2, channel name lengths around ChannelMaxLength, pending bytes around ClientQueueMaxSize', 'Every interleaving within the bound; acknowledged subscriptions never exceed the limit, surplus attempts get limit-exceeded (server-side: channel-limit disconnect), over-long names are rejected, the connection is closed as slow exactly when pending bytes exceed the queue limit.')
-e1('C41', 'survey responses (own, duplicate, foreign id, late) delivered by separate threads in all orders on 2-3 nodes joined by a loop-back controller, deadline on the virtual clock, two concurrent surveys', 'Every interleaving within the bound; results contain at most one answer per node and only for this survey, Survey returns as soon as all nodes answered or at the deadline, nothing blocks for ever.')
+e1('C41', 'survey responses (own, duplicate, foreign id, late) delivered by separate threads in all orders on 2-3 nodes joined by a loop-back controller, deadline on the virtual clock, two concurrent surveys', 'Every interleaving within the bound; results contain at most one answer per node and only for this survey, Survey returns as soon as all nodes answered or at the deadline, nothing blocks for ever. Slow-acknowledgement variants: the control transport takes 2 s to acknowledge the survey request while answers (one of them duplicated) arrive at +0 s and +1 s.')
 e1('C11', 'connect command (with server-side subscriptions) racing Client.Send via the hub, Node.Subscribe, Node.Publish, Node.Disconnect and close, on a recording transport, a recording DictionaryAwareTransport double and the real websocketTransport over an in-memory connection', 'Every interleaving within the bound (0-2 per variant); the first frame written must be the connect reply; with a dictionary the connect reply is raw, every later frame passes the encoder, the encoder is closed exactly once, after its last use and never overlapping one.')
 claim('C36', 'E2', 'exhaustive enumeration of event orders (up to 4-5 events: time steps to just before / at / after each deadline, pong, refresh command, Client.Refresh, sub_refresh, presence tick) on one real connection over the virtual clock against three-valued reference timelines',
-      'Every event sequence for ping/pong, stale, connection expiry (client- and server-side refresh) and subscription expiry (client- and server-side, server-side subscription); a connection/subscription is ended with the right code exactly when the reference timeline says it must be, never when it must not.',
+      'Every event sequence for ping/pong, stale, connection expiry (client- and server-side refresh) and subscription expiry (client- and server-side, server-side subscription; also with channel presence whose backend fails every periodic update); a connection/subscription is ended with the right code exactly when the reference timeline says it must be, never when it must not.',
       'Expiry times are unix seconds, so the reference model has a 1 s (+ presence interval) undetermined window in which either outcome is accepted.')
 
-e1('C22', 'a protocol-following map client (state pages, stream pages, live transition or recovery join; page size 1-2) against a writer thread doing up to 3 of publish / remove / clear / key expiry / stream expiry on the real node and Memory map broker', 'Every interleaving within the bound over ephemeral / recoverable / persistent modes, StreamSize 2 and 100, tags filter on/off; at quiescence the client map equals the broker state restricted to admitted keys, or the client was told (unrecoverable position / insufficient state / state invalidated); recovered=true never hides an undelivered change.')
+e1('C22', 'a protocol-following map client (state pages, stream pages, live transition or recovery join; page size 1-2) against a writer thread doing up to 3 of publish / remove / clear / key expiry / stream expiry on the real node and Memory map broker', 'Every interleaving within the bound over ephemeral / recoverable / persistent modes, StreamSize 2 and 100, tags filter on/off; at quiescence the client map equals the broker state restricted to admitted keys, or the client was told (unrecoverable position / insufficient state / state invalidated); recovered=true never hides an undelivered change. Harness mappageshare: two connections load the same state page at once under UseSingleFlight, one with a client or server tags filter that drops entries; each state page must hold exactly the keys its filter admits.')
 e1('C38', 'channel medium options (KeepLatestPublication, SharedPositionSync; unexported queue / broadcast delay reported separately) with two broadcasts, position checks with stale / valid positions, medium shutdown on last unsubscribe, racing subscribers', 'Every interleaving within the bound (0-2) of six scenarios with at most two subscribers; per positioned subscriber the C01 offset oracle, the MaxUint64 sentinel never reaches a client, a detected loss ends every positioned subscriber, non-positioned subscribers are untouched. Harness pubqueuerace runs the medium writer loop (Wait, Remove until empty) against 1-2 producers within preemption bound 2-3 (nothing may be left in the open queue while the writer waits). Harness pubqueuex adds every operation sequence (length <= 12-14 over Add / Remove / Close, initial capacities 1-3) on the medium ring-buffer queue against a slice model (FIFO across grow and shrink steps, Len / Size accounting).')
 
 NA = {
